@@ -507,6 +507,8 @@ pub struct RunLog {
     /// all four application tasks finished before the watchdog
     pub apps_finished: bool,
     pub watchdog_fired: bool,
+    /// a task kept the runtime busy at one virtual instant until the spin limit (sim::SPIN_LIMIT)
+    pub livelock: bool,
     /// which application tasks were unfinished when the watchdog fired
     pub stuck: Vec<String>,
     /// virtual time at which the apps were all finished
@@ -587,9 +589,12 @@ pub fn build_runtime(seed: u64) -> tokio::runtime::Runtime {
 /// Executes one scenario under one fault plan to completion. Deterministic.
 pub fn run(scn: &Scenario, plan: &[(usize, Fate)], abort: &Abort) -> RunLog {
     librqbit_utp::verif::gauges_reset();
+    crate::duo::sim::spin_reset();
+    let describe = || crate::duo::explore::replay_json(scn, &plan.to_vec(), abort);
+    let _guard = crate::common::RunGuard::new(&describe);
     let rt = build_runtime(scn.rng_seed);
     let res = std::panic::catch_unwind(std::panic::AssertUnwindSafe(|| rt.block_on(run_async(scn, plan, abort))));
-    let log = match res {
+    let mut log = match res {
         Ok(l) => l,
         Err(p) => {
             let msg = p
@@ -601,6 +606,7 @@ pub fn run(scn: &Scenario, plan: &[(usize, Fate)], abort: &Abort) -> RunLog {
         }
     };
     drop(rt);
+    log.livelock = crate::duo::sim::spin_tripped();
     log
 }
 
